@@ -49,12 +49,24 @@ def rm(d):
     shutil.rmtree(d, ignore_errors=True)
 
 
+_cov = None
+
+
 def _init_worker(base):
-    global _base
+    global _base, _cov
     _base = base
     d = os.path.join(base, 'w%d' % os.getpid())
     os.makedirs(d, exist_ok=True)
     os.chdir(d)
+    # VF_COVERAGE=<dir>: measure which lines / branches of klepto the exploration executes (tools/coverage_report.py);
+    # a diagnostic for vacuous alphabets, never used by a registered check
+    if os.environ.get('VF_COVERAGE') and _cov is None:
+        import coverage
+        _cov = coverage.Coverage(data_file=os.path.join(os.environ['VF_COVERAGE'], 'cov'), data_suffix='%d' % os.getpid(),
+                                 source_pkgs=['klepto'], branch=True)
+        _cov.start()
+
+
 
 
 def ncpu():
@@ -77,9 +89,26 @@ def run_configs(fn, configs, seed=0, procs=None):
         _init_worker(base)
         for i in order:
             yield fn(configs[i])
+            if _cov is not None:
+                _cov.save()
         os.chdir(base)
         return
     ctx = mp.get_context('fork')
+    if os.environ.get('VF_COVERAGE'):
+        fn = _CoveredTask(fn)
     with ctx.Pool(procs, initializer=_init_worker, initargs=(base,), maxtasksperchild=None) as pool:
         for res in pool.imap_unordered(fn, [configs[i] for i in order], chunksize=1):
             yield res
+
+
+class _CoveredTask(object):
+    """picklable wrapper that saves the worker's coverage data after every task"""
+    def __init__(self, fn):
+        self.fn = fn
+
+    def __call__(self, cfg):
+        try:
+            return self.fn(cfg)
+        finally:
+            if _cov is not None:
+                _cov.save()
